@@ -635,4 +635,99 @@ theorem ackRcvd_refines (m : BufMap) (a b : Nat) (hwf : WF m) (hab : a < b) (hb 
         hZ1 hZ2 hZ3
       exact ⟨this.1, trivial, this.2⟩
 
+/-! ### `shift` -/
+
+private theorem least_unique' (p : Nat → Bool) (n k : Nat) (hk : k ≤ n) (h1 : ∀ x, x < k → p x = false)
+    (h2 : k < n → p k = true) : least p n = k := by
+  induction n generalizing k with
+  | zero => simp [least]; omega
+  | succ n ih =>
+    simp only [least]
+    by_cases hkn : k ≤ n
+    · have := ih k hkn h1 (fun h => h2 (by omega))
+      rw [this]
+      by_cases hlt : k < n
+      · simp [hlt]
+      · have hkn' : k = n := by omega
+        subst hkn'
+        simp [h2 (by omega)]
+    · have hkn' : k = n + 1 := by omega
+      subst hkn'
+      have := ih n (Nat.le_refl _) (fun x hx => h1 x (by omega)) (fun h => by omega)
+      rw [this]
+      simp [h1 n (by omega)]
+
+private theorem shift_go_split (l : List Run) :
+    ∃ R1, l = R1 ++ (shift.go l).1 ∧ (∀ r ∈ R1, r.2 = Colour.recved) ∧
+      (((shift.go l).1 = [] ∧ (shift.go l).2 = none) ∨
+        ∃ o c rest, (shift.go l).1 = (o, c) :: rest ∧ c ≠ Colour.recved ∧ (shift.go l).2 = some o) := by
+  induction l with
+  | nil => exact ⟨[], rfl, by simp, Or.inl ⟨rfl, rfl⟩⟩
+  | cons r l ih =>
+    obtain ⟨o, c⟩ := r
+    by_cases h : c = .recved
+    · obtain ⟨R1, h1, h2, h3⟩ := ih
+      have hgo : shift.go ((o, c) :: l) = shift.go l := by simp [shift.go, h]
+      rw [hgo]
+      refine ⟨(o, c) :: R1, by simp [← h1], ?_, h3⟩
+      intro r hr
+      simp at hr
+      rcases hr with hr | hr
+      · subst hr; exact h
+      · exact h2 r hr
+    · have hgo : shift.go ((o, c) :: l) = ((o, c) :: l, some o) := by simp [shift.go, h]
+      rw [hgo]
+      exact ⟨[], rfl, by simp, Or.inr ⟨o, c, l, rfl, h, rfl⟩⟩
+
+private theorem shift_eq (m : BufMap) :
+    (shift m).1 = { m with runs := (shift.go m.runs).1 } ∧
+    (shift m).2 = (match (shift.go m.runs).2 with | some o => o | none => m.size) := by
+  unfold shift
+  cases h : shift.go m.runs with
+  | mk runs opt => cases opt <;> simp
+
+theorem shift_refines (m : BufMap) (hwf : WF m) :
+    WF (shift m).1 ∧ (shift m).1.size = m.size ∧ (∀ x, (shift m).1.abs x = m.abs x) ∧
+    (shift m).2 = firstUnrecved m.abs m.size := by
+  obtain ⟨he1, he2⟩ := shift_eq m
+  obtain ⟨R1, hL, hR1, hcase⟩ := shift_go_split m.runs
+  have hs := hwf.sorted
+  rw [hL] at hs
+  have habs : ∀ x, (shift m).1.abs x = m.abs x := by
+    intro x
+    rw [he1]
+    simp only [BufMap.abs]
+    split
+    · conv => rhs; rw [hL]
+      exact (colourAt_drop_same R1 _ .recved x hs hR1).symm
+    · rfl
+  refine ⟨?_, by rw [he1], habs, ?_⟩
+  · rw [he1]
+    exact ⟨(sorted_append hs).2.1, fun r hr => hwf.lt_size r (by rw [hL]; simp [hr])⟩
+  · rw [he2]
+    unfold firstUnrecved
+    symm
+    rcases hcase with ⟨hnil, hnone⟩ | ⟨o, c, rest, hcons, hc, hsome⟩
+    · simp only [hnone]
+      apply least_unique' _ _ _ (Nat.le_refl _)
+      · intro x hx
+        rw [abs_of_lt m x hx, hL, hnil, List.append_nil, colourAt_same R1 .recved x hR1]
+        rfl
+      · intro h; omega
+    · simp only [hsome]
+      have hmem : (o, c) ∈ m.runs := by rw [hL, hcons]; simp
+      have holt : o < m.size := hwf.lt_size _ hmem
+      apply least_unique' _ _ _ (by omega)
+      · intro x hx
+        have := habs x
+        rw [← this, he1]
+        simp only [BufMap.abs]
+        have hxs : x < m.size := by omega
+        simp only [hxs, if_true, hcons]
+        rw [colourAt_cons_lt o c rest _ x hx]
+        rfl
+      · intro _
+        rw [abs_at_run m hwf o c hmem]
+        simp [hc]
+
 end GmQuic.BufMap
